@@ -335,11 +335,91 @@ impl<'a> Engine<'a> {
     }
 
     /// Generate one canonical value (or None after `tries` rejected candidates).
+    /// Text fields (CP437, variable length) of a value: (path of field indices, longest text the length style carries).
+    fn text_slots(&self, def: &StructDef, v: &Val, path: &mut Vec<usize>, out: &mut Vec<(Vec<usize>, usize)>) {
+        let Val::Struct(fs) = v else { return };
+        for (i, (f, (_, fv))) in def.fields.iter().zip(fs.iter()).enumerate() {
+            if f.card == Card::Many {
+                continue;
+            }
+            let inner = match fv {
+                Val::Opt(Some(b)) => &**b,
+                Val::Opt(None) => continue,
+                o => o,
+            };
+            path.push(i);
+            match (&f.enc, inner) {
+                (Enc::Cp437, Val::Text(_)) => {
+                    let max = match f.len {
+                        Len::Ll => 99,
+                        Len::Lll => 999,
+                        Len::Ber | Len::None => 4000,
+                        _ => 0,
+                    };
+                    if max > 0 {
+                        out.push((path.clone(), max));
+                    }
+                }
+                (Enc::Struct(k), Val::Struct(_)) => self.text_slots(self.schema.get(k), inner, path, out),
+                _ => {}
+            }
+            path.pop();
+        }
+    }
+
+    /// The same value with one of its text fields resized so that the APDU body is exactly `target` bytes long.
+    fn stretch_body(&self, rng: &mut Rng, def: &StructDef, v: &Val, target: usize) -> Option<(Val, Vec<u8>)> {
+        let mut slots = vec![];
+        self.text_slots(def, v, &mut vec![], &mut slots);
+        if slots.is_empty() {
+            return None;
+        }
+        let (path, max) = rng.pick(&slots).clone();
+        let mut v = v.clone();
+        fn slot<'v>(v: &'v mut Val, path: &[usize]) -> Option<&'v mut Val> {
+            let mut cur = v;
+            for i in path {
+                let Val::Struct(fs) = cur else { return None };
+                cur = &mut fs.get_mut(*i)?.1;
+                if let Val::Opt(Some(b)) = cur {
+                    cur = &mut **b;
+                }
+            }
+            Some(cur)
+        }
+        for _ in 0..5 {
+            let b = self.codec.canonical(def, &v).ok()?;
+            let body = if b[2] == 0xff { b.len() - 5 } else { b.len() - 3 };
+            if body == target {
+                return Some((v, b));
+            }
+            let Val::Text(t) = slot(&mut v, &path)? else { return None };
+            let cur = t.chars().count() as isize;
+            let want = cur + target as isize - body as isize;
+            if want < 0 || want as usize > max {
+                return None;
+            }
+            *t = (0..want as usize).map(|j| (b'A' + (j % 26) as u8) as char).collect();
+        }
+        None
+    }
+
     pub fn canonical_value(&self, r: &mut Report, rng: &mut Rng, def: &StructDef, presence: Presence, tries: usize) -> Option<(Val, Vec<u8>, Node)> {
         for _ in 0..tries {
             let v = self.gen.gen_struct(rng, def, presence, 0);
             match self.codec.canonical(def, &v) {
                 Ok(b) => {
+                    // now and then a packet is resized (one of its text fields) so that its APDU body sits exactly on the
+                    // short / extended length switch
+                    if def.cf.is_some() && presence == Presence::Random && rng.chance(1, 8) {
+                        let target = *rng.pick(&[254usize, 255, 255, 256]);
+                        if let Some((v2, b2)) = self.stretch_body(rng, def, &v, target) {
+                            if let Ok(tree) = self.codec.enc_top(def, &v2) {
+                                r.count("bodies_stretched_to_the_apdu_length_switch", 1);
+                                return Some((v2, b2, tree));
+                            }
+                        }
+                    }
                     let tree = self.codec.enc_top(def, &v).unwrap();
                     return Some((v, b, tree));
                 }
